@@ -38,7 +38,7 @@ pub fn run(ctx: &Ctx, rep: &mut Report) {
             }
             item += 1;
             // l transmitted bits = n characters with fill 6n - l; every (n, fill) pair occurs
-            let contents = if ctx.thorough() { 64 } else { 5 };
+            let contents = if ctx.thorough() { 96 } else { 24 };
             for c in 0..=contents {
                 let mut bits = if c == contents { Bits::ones(l) } else { Bits::random(l, &mut r) };
                 if l >= 6 {
@@ -95,7 +95,7 @@ pub fn run(ctx: &Ctx, rep: &mut Report) {
             continue;
         }
         item += 1;
-        for i in 0..ctx.budget(300, 20_000) {
+        for i in 0..ctx.budget(3000, 60_000) {
             let bits = gen::gen_message(b, &mut r);
             let via = [Via::Raw, Via::Armor, Via::Line][(i % 3) as usize];
             let v = gen::run_message_mask(rep, PID, mask, &bits, via, b.name);
